@@ -163,6 +163,64 @@ def xfer_traces(ctx, profiles, n_quick, n_thorough, shards=None, extra_env=None)
     return files
 
 
+def tlc_behaviours(ctx, module, cfg, num, depth, seed=None, workers=8, timeout=600):
+    """Generate behaviours with `tlc -simulate`; the model prints <<"BEHAVIOUR", json>> at depth.
+    Returns (path of a file with one JSON array per line, count)."""
+    per = max(1, num // workers)
+    r = L.run_tlc(ctx.scr, module, cfg, workers=workers, timeout=timeout, heap="4g",
+                  extra=["-simulate", "num=%d" % per, "-depth", str(depth), "-seed", str(seed if seed is not None else ctx.seed)])
+    if r["timeout"] or "Error:" in r["out"]:
+        raise L.MachineryError("behaviour generation %s/%s failed:\n%s" % (module, cfg, "\n".join(r["out"].splitlines()[-30:])))
+    path = os.path.join(r["wd"], "behaviours.jsonl")
+    seen = set()
+    with open(path, "w") as f:
+        for line in r["out"].splitlines():
+            m = re.match(r'<<"BEHAVIOUR", "(.*)">>\s*$', line)
+            if m:
+                js = m.group(1).replace('\\"', '"').replace("\\\\", "\\")
+                if js not in seen:
+                    seen.add(js)
+                    f.write(js + "\n")
+    ctx.design.append({"module": module, "cfg": cfg, "mode": "simulate", "distinct": 0, "generated": r["generated"], "behaviours": len(seen),
+                       "wall_s": r["wall_s"], "ok": True, "cmd": r["cmd"]})
+    if not seen:
+        raise L.MachineryError("no behaviours produced by %s/%s" % (module, cfg))
+    return path, len(seen)
+
+
+def recv_component(ctx, pfx):
+    """RecvTSN: design-level exhaustive check, TLC behaviours replayed into the real structure, and
+    real-structure traces validated by TLC (monitor prefix pfx)."""
+    binp = ctx.harness()
+    ctx.tlc_design("MC_RecvTSN", "MC_RecvTSN_bfs4.cfg" if ctx.quick else "MC_RecvTSN_bfs5.cfg", timeout=1500)
+    # direction A: specification behaviours -> real code, at absolute bases incl. the 2^32 wrap
+    for w in ([2112, 8448] if ctx.quick else [2048, 2112, 8448, 40000]):
+        path, nb = tlc_behaviours(ctx, "MC_RecvTSN", "MC_RecvTSN_%d.cfg" % w, 64 if ctx.quick else 400, 16)
+        out = ctx.scr.mkdir("recvreplay")
+        p = L.run_harness(binp, "recv-replay", out, {"VF_IN": path, "VF_W": w, "VF_SEED": ctx.seed, "VF_NBASES": 24 if ctx.quick else 60})
+        if p.returncode != 0:
+            raise L.MachineryError("recv-replay failed: " + (p.stdout + p.stderr)[-2000:])
+        res = json.load(open(os.path.join(out, "recv-replay-%d.json" % w)))
+        ctx.replayed += res["ops"]
+        ctx.evaluations += res["ops"]
+        for m in res["mismatches"]:
+            ctx.add_violation(pfx + "_RecvTSN_" + m["field"], "recv-replay W=%d base=%d" % (w, m["base"]),
+                              [m["op"], m["arg"], w, "nearwrap" if m.get("wrapdist", 1 << 30) < 3 * w else "far", m["step"]])
+        if len(ctx.samples) < 4:
+            ctx.samples.append({"recv_behaviour": open(path).readline()[:600]})
+    # direction B: real structure -> TLC
+    out = ctx.scr.mkdir("recvtrace")
+    env = {"VF_N": 60 if ctx.quick else 1500, "VF_NOPS": 60, "VF_SEED": ctx.seed}
+    if pfx == "C16":
+        env["VF_WRAPONLY"] = "1"
+    ps = L.run_shards(binp, "recv-trace", out, 4 if ctx.quick else 16, env)
+    for p in ps:
+        if p.returncode != 0:
+            raise L.MachineryError("recv-trace failed: " + (p.stdout + p.stderr)[-2000:])
+    ctx.validate(sorted(glob.glob(os.path.join(out, "recv-*.ndjson"))), module="RecvTSNTrace", cfg="RecvTSNTrace.cfg", env={"VF_MONPFX": pfx})
+    ctx.distinct.add(("recv-component", pfx))
+
+
 ALL_PROFILES = ["basic", "lossy", "reorder", "zwin", "pr", "wrap", "il", "tiny", "clean"]
 
 
@@ -174,6 +232,7 @@ def c01(ctx):
 
 @check("C05", ["C05_"])
 def c05(ctx):
+    recv_component(ctx, "C05")
     files = xfer_traces(ctx, ["lossy", "reorder", "wrap", "pr", "zwin", "basic"], 160, 4000)
     ctx.validate(files)
 
